@@ -143,6 +143,7 @@ class Contract:
         self.allocates = []  # classes of which the function may allocate new objects
         self.comp_elt = None  # element type of the list comprehension the function returns
         self.reveals = []  # opaque specification functions whose definition this unit may use
+        self.internal = set()
         self.using = {}  # ensures clause -> earlier clauses of this contract used as lemmas for it
         self.findings = {}  # clause name -> (finding id, case expr)
         self.assume_only = False  # external/trusted contract: never verified
@@ -190,6 +191,8 @@ class Contract:
                 self.ensures.append((nm, expr))
                 if "using" in kw:
                     self.using[nm] = [x.value for x in kw["using"].elts]
+                if "internal" in kw:
+                    self.internal.add(nm)  # a stepping stone of this unit's proof: not exported to callers
             elif fn == "modifies":
                 self.modifies.append((a[0], [x.value for x in a[1:]]))
             elif fn == "raises":
